@@ -30,7 +30,8 @@ the spec's reading of a raw tree), `C07Functions.gen_function_semantics` (today'
   listed gaps; `specCtx_ok` — the contexts holding exactly the spec's functions (the harness's "m", "o"): `CtxOK s (specCtx s) noGap`.
 * bottom-up, each its own lemma: `eval'_col` (column), `leaf_sem` + `valL_const` (constant), `unary_step` (unary),
   `colConst_sem` (column-constant, both orders: `constFirst`), `colcol_step` (column-column), `ex1_sem` / `ex2_sem` (nested),
-  `exec_den` (every tree, by structural induction mirroring `EArg.den`), `map_absSet` (`setColumn` = the spec's `setCol`).
+  `exec_den` (every tree, by structural induction mirroring `EArg.den`), `map_absSet` (`setColumn` = the spec's `setCol`),
+  `den_none_of_ref` (a reference to a column the frame does not have makes the spec's value an error, wherever it stands).
 
 ## The full statement, and what the proved one excludes (hence `_partial`)
 
@@ -40,14 +41,17 @@ theorem eval'_eq_evalS (ok : CtxOK s ctx noGap) (wf : WF f L) (u : UniqueNames f
     resL strBytes (eval' ctx f dst e) = evalS s (absL strBytes f) (strBytes dst) (toSpec strBytes e)
 ```
 
-This is FALSE as it stands (item 1) and not expressible in the frame mirror for enum columns (item 2a).  The proved theorem
-has these further hypotheses:
+It is not expressible in the frame mirror for enum columns (item 2a).  The proved theorem has these further hypotheses:
 
-1. `NoCapture f e` — **finding**.  No column reference of the expression that is not a column of the frame has the form
-   `const-temp-k` / `unary-temp-k` / `colcol-temp-k`.  Without it code and spec disagree: in
-   `Expr("+", Expr("+", a, b), ColumnName("colcol-temp-0"))` on a frame without such a column the right operand is
-   satisfied by the temp column of the left operand; `Eval` returns `(a + b) + (a + b)` and no error, the spec (unknown
-   column) an error.  Witness below (`witCapture`), confirmed on the real code.
+1. (gone) `NoCapture f e` — **the finding this file led to, repaired in the library**.  For the code as it was, the
+   statement was false: in `Expr("+", Expr("+", a, b), ColumnName("colcol-temp-0"))` on a frame without such a column the
+   right operand was satisfied by the temp column of the left operand; `Eval` returned `(a + b) + (a + b)` and no error, the
+   spec (unknown column) an error; the theorems had the hypothesis `NoCapture` (no reference to a column that is not in
+   the frame under a name `execute` gives to temporaries).  The repaired `Eval` checks every column reference against the
+   frame it is called on before it executes anything (`missingCol`; `C07Eval.missing`, `C07EvalGen.gen_missingcol_semantics`):
+   a missing reference is an error on both sides (`den_none_of_ref`), and with all references present nothing can be
+   captured (`noCapture_of_present`).  The hypothesis is dropped from all theorems of this file; the witness below shows
+   the OLD term accepting `witCapture` where the spec and today's term reject it.
 2. `InScope enc s gap (absL enc f) e` — every operand of every function application, as the spec evaluates it,
    a. is not an enum column: the frame mirror `Fr.Val.enum` carries ranks without a value table, and its `apply2` types
       enum ⊕ enum as enum where code and spec say string (witness `exEnum` below) — a limitation of the mirror, not of the code;
@@ -423,12 +427,10 @@ theorem unique_abs {f : Frame} (u : UniqueNames f) : (f.abs.map (·.1)).Nodup :=
   rw [abs_names]; exact u
 
 /-- `Eval(dst, Val(column))` -/
-theorem eval'_col (enc : String → Bytes) (henc : ∀ a b, enc a = enc b → a = b) (s : String) (ctx : Ctx)
+theorem eval'_col (enc : String → Bytes) (henc : ∀ a b, enc a = enc b → a = b) (s : String)
     (f : Frame) (L : Nat) (wf : WF f L) (u : UniqueNames f) (he : f.err = none) (dst : String)
     (hdst : checkName dst = legalName (enc dst)) (n : String) :
-    resL enc (eval' ctx f dst (.col n)) = evalS s (absL enc f) (enc dst) (toSpec enc (.col n)) := by
-  have hev : eval' ctx f dst (.col n) = evalEpilogue f dst f n := by simp [eval', he, execute']
-  rw [hev]
+    resL enc (evalEpilogue f dst f n) = evalS s (absL enc f) (enc dst) (toSpec enc (.col n)) := by
   simp only [toSpec, evalS_col]
   unfold copyS
   rw [find_absL enc henc f n, absLookup_byName wf u]
@@ -469,16 +471,36 @@ theorem eval'_eq_evalS_partial {s : String} {ctx : Ctx} {gap : CType → String 
     (enc : String → Bytes) (henc : ∀ a b, enc a = enc b → a = b)
     (f : Frame) (L : Nat) (wf : WF f L) (u : UniqueNames f) (he : f.err = none) (hL : physLen f = L)
     (dst : String) (hdst : checkName dst = legalName (enc dst))
-    (e : Ex') (hlt : f.cols.length + need e ≤ 10000) (hc : noEnumConst e = true) (hcap : NoCapture f e)
+    (e : Ex') (hlt : f.cols.length + need e ≤ 10000) (hc : noEnumConst e = true)
     (hs : InScope enc s gap (absL enc f) e = true) :
     resL enc (eval' ctx f dst e) = evalS s (absL enc f) (enc dst) (toSpec enc e) := by
+  cases hm : missing e f with
+  | some c =>
+    -- a column reference that is not a column of the frame: an error on both sides, nothing is executed
+    have hev : eval' ctx f dst e = withErr f .other := by simp [eval', he, hm]
+    rw [hev, resL_err rfl]
+    rw [missing_eq_find] at hm
+    have hmem := List.mem_of_find?_eq_some hm
+    have hnot := List.find?_some hm
+    have hb : f.byName c = none := by
+      cases hb : f.byName c with
+      | none => rfl
+      | some x => simp [contains, hb] at hnot
+    have hfind : (absL enc f).find? (enc c) = none := by
+      rw [find_absL enc henc f c, absLookup_byName wf u, hb]; rfl
+    have hden := den_none_of_ref enc s (absL enc f) e ⟨c, hmem, hfind⟩
+    unfold evalS
+    rw [hden]
+  | none =>
+  have hcap : NoCapture f e := noCapture_of_present ((missing_none_iff e f).mp hm)
+  have hev : eval' ctx f dst e = evalEpilogue f dst (execute' ctx e f).1 (execute' ctx e f).2 := by
+    simp [eval', he, hm]
   cases hcol : isCol e with
   | true =>
     cases e <;> simp [isCol] at hcol
-    exact eval'_col enc henc s ctx f L wf u he dst hdst _
+    rw [hev]
+    exact eval'_col enc henc s f L wf u he dst hdst _
   | false =>
-    have hev : eval' ctx f dst e = evalEpilogue f dst (execute' ctx e f).1 (execute' ctx e f).2 := by
-      simp [eval', he]
     have hsem := (exec_den ok enc (absL enc f) e f L wf u he hL hlt hc hcap (agree_self enc henc f e) hs).2 hcol
     rw [hev, evalS_noncol enc s _ _ e hcol]
     cases hden : (toSpec enc e).den s (absL enc f) with
@@ -838,15 +860,15 @@ theorem gen_eval_end_to_end_partial {s : String} {ctx : Fr.Ctx} {gap : CType →
       ∀ (f : Frame) (L : Nat), WF f L → UniqueNames f → f.err = none → physLen f = L →
         ∀ (dst : String), checkName dst = legalName (enc dst) →
         (∀ n, n ∈ colNames d → enc (nm n) = n) →
-        f.cols.length + need (ofXDec nm d) ≤ 10000 → NoCapture f (ofXDec nm d) →
+        f.cols.length + need (ofXDec nm d) ≤ 10000 →
         InScope enc s gap (absL enc f) (ofXDec nm d) = true →
         ∃ g, genEval ctx f dst (ofXDec nm d) = some g ∧
           resL enc g = evalS s (absL enc f) (enc dst) (read nm x) := by
   obtain ⟨d, hd, he, ht, _⟩ := gen_expr_decode_semantics nm x hx
   refine ⟨d, hd, ?_⟩
-  intro f L wf u hfe hL dst hdst hnames hlt hcap hs
+  intro f L wf u hfe hL dst hdst hnames hlt hs
   refine ⟨eval' ctx f dst (ofXDec nm d), gen_eval_semantics_eval ctx f dst _, ?_⟩
-  rw [eval'_eq_evalS_partial ok enc henc f L wf u hfe hL dst hdst _ hlt (noEnumConst_ofXDec nm d) hcap hs,
+  rw [eval'_eq_evalS_partial ok enc henc f L wf u hfe hL dst hdst _ hlt (noEnumConst_ofXDec nm d) hs,
     toSpec_ofXDec enc nm d hnames]
   exact evalS_decoded nm x d he ht s _ _
 
@@ -883,15 +905,15 @@ theorem gen_eval_end_to_end_fold_partial {s : String} {ctx : Fr.Ctx} {gap : CTyp
       ∀ (f : Frame) (L : Nat), WF f L → UniqueNames f → f.err = none → physLen f = L →
         ∀ (dst : String), checkName dst = legalName (enc dst) →
         (∀ n, n ∈ colNames d → enc (nm n) = n) →
-        f.cols.length + need (ofXDec nm d) ≤ 10000 → NoCapture f (ofXDec nm d) →
+        f.cols.length + need (ofXDec nm d) ≤ 10000 →
         InScope enc s gap (absL enc f) (ofXDec nm d) = true →
         ∃ g, genEval ctx f dst (ofXDec nm d) = some g ∧
           resL enc g = evalS s (absL enc f) (enc dst) (EArg.x (nm name) (readL nm args)) := by
   obtain ⟨d, hd, _, he, ht⟩ := gen_expr_fold nm name args hx
   refine ⟨d, hd, ?_⟩
-  intro f L wf u hfe hL dst hdst hnames hlt hcap hs
+  intro f L wf u hfe hL dst hdst hnames hlt hs
   refine ⟨eval' ctx f dst (ofXDec nm d), gen_eval_semantics_eval ctx f dst _, ?_⟩
-  rw [eval'_eq_evalS_partial ok enc henc f L wf u hfe hL dst hdst _ hlt (noEnumConst_ofXDec nm d) hcap hs,
+  rw [eval'_eq_evalS_partial ok enc henc f L wf u hfe hL dst hdst _ hlt (noEnumConst_ofXDec nm d) hs,
     toSpec_ofXDec enc nm d hnames]
   have hfold : evalS s (absL enc f) (enc dst) (foldE (nm name) (readL nm args)) =
       evalS s (absL enc f) (enc dst) (EArg.x (nm name) (readL nm args)) := by
@@ -914,10 +936,10 @@ end EndToEnd
 theorems (`strBytes_inj`, `checkName_eq_legalName`), so only the hypotheses 1–3 of the header remain. -/
 theorem eval'_eq_evalS_utf8_partial {s : String} {ctx : Ctx} {gap : CType → String → Bool} (ok : CtxOK s ctx gap)
     (f : Frame) (L : Nat) (wf : WF f L) (u : UniqueNames f) (he : f.err = none) (hL : physLen f = L)
-    (dst : String) (e : Ex') (hlt : f.cols.length + need e ≤ 10000) (hc : noEnumConst e = true) (hcap : NoCapture f e)
+    (dst : String) (e : Ex') (hlt : f.cols.length + need e ≤ 10000) (hc : noEnumConst e = true)
     (hs : InScope strBytes s gap (absL strBytes f) e = true) :
     resL strBytes (eval' ctx f dst e) = evalS s (absL strBytes f) (strBytes dst) (toSpec strBytes e) :=
-  eval'_eq_evalS_partial ok strBytes strBytes_inj f L wf u he hL dst (checkName_eq_legalName dst) e hlt hc hcap hs
+  eval'_eq_evalS_partial ok strBytes strBytes_inj f L wf u he hL dst (checkName_eq_legalName dst) e hlt hc hs
 
 /-- `gen_eval_end_to_end_partial` with names as their UTF-8 bytes; `nm` reads the byte strings of the raw tree as the
 mirror's `String`s (the column names of the tree are valid UTF-8: `strBytes (nm n) = n`) -/
@@ -926,13 +948,13 @@ theorem gen_eval_end_to_end_utf8_partial {s : String} {ctx : Fr.Ctx} {gap : CTyp
     ∃ d, Gen.newExprAst.decode x = some d ∧
       ∀ (f : Frame) (L : Nat), WF f L → UniqueNames f → f.err = none → physLen f = L →
         ∀ (dst : String), (∀ n, n ∈ colNames d → strBytes (nm n) = n) →
-        f.cols.length + need (C07EvalGen.ofXDec nm d) ≤ 10000 → NoCapture f (C07EvalGen.ofXDec nm d) →
+        f.cols.length + need (C07EvalGen.ofXDec nm d) ≤ 10000 →
         InScope strBytes s gap (absL strBytes f) (C07EvalGen.ofXDec nm d) = true →
         ∃ g, C07EvalGen.genEval ctx f dst (C07EvalGen.ofXDec nm d) = some g ∧
           resL strBytes g = evalS s (absL strBytes f) (strBytes dst) (C07Decode.read nm x) := by
   obtain ⟨d, hd, h⟩ := gen_eval_end_to_end_partial ok strBytes strBytes_inj nm x hx
-  exact ⟨d, hd, fun f L wf u he hL dst hn hlt hc hs =>
-    h f L wf u he hL dst (checkName_eq_legalName dst) hn hlt hc hs⟩
+  exact ⟨d, hd, fun f L wf u he hL dst hn hlt hs =>
+    h f L wf u he hL dst (checkName_eq_legalName dst) hn hlt hs⟩
 
 /-! ## a concrete instance: the hypotheses are satisfiable, the statement is about something
 
@@ -959,23 +981,17 @@ def showRes : Res → Option (List (Bytes × CType × List Cell))
 
 theorem exF_physLen : physLen exF = 3 := by decide +kernel
 
-theorem exF_noCapture_a (e : Ex') (h : ∀ n, n ∈ refs e → n = "a" ∨ n = "b") : NoCapture exF e := by
-  intro n hn hb
-  rcases h n hn with rfl | rfl <;> simp [exF] at hb
-
 /-- all hypotheses of `eval'_eq_evalS_partial` hold of `Eval("y", abs((10 - a) + a * a))` on `exF` in the default context -/
 example : WF exF 3 ∧ UniqueNames exF ∧ exF.err = none ∧ physLen exF = 3 ∧
     checkName "y" = legalName (strBytes "y") ∧ exF.cols.length + need exT ≤ 10000 ∧ noEnumConst exT = true ∧
-    NoCapture exF exT ∧ InScope strBytes "d" gapD (absL strBytes exF) exT = true :=
-  ⟨exF_wf, exF_unique, rfl, exF_physLen, by decide +kernel, by decide +kernel, by decide +kernel,
-   exF_noCapture_a exT (by intro n hn; simp [exT, refs] at hn; exact .inl hn), by decide +kernel⟩
+    InScope strBytes "d" gapD (absL strBytes exF) exT = true :=
+  ⟨exF_wf, exF_unique, rfl, exF_physLen, by decide +kernel, by decide +kernel, by decide +kernel, by decide +kernel⟩
 
 /-- so the mirror's result stands for the spec's … -/
 example : resL strBytes (eval' dCtx exF "y" exT) =
     evalS "d" (absL strBytes exF) (strBytes "y") (toSpec strBytes exT) :=
   eval'_eq_evalS_utf8_partial dCtx_ok exF 3 exF_wf exF_unique rfl exF_physLen "y"
-    exT (by decide +kernel) (by decide +kernel)
-    (exF_noCapture_a exT (by intro n hn; simp [exT, refs] at hn; exact .inl hn)) (by decide +kernel)
+    exT (by decide +kernel) (by decide +kernel) (by decide +kernel)
 
 /-- … which is: `a`, `b` untouched, `y` appended last with `|(10 - a) + a·a|` per row (rows 2, 0, 1: 142, 100, 120) -/
 example : showRes (evalS "d" (absL strBytes exF) (strBytes "y") (toSpec strBytes exT)) =
@@ -1007,9 +1023,7 @@ example : ∃ g, genEval dCtx exF "y" (ofXDec C07Decode.nmU decT) = some g ∧
   obtain ⟨d, hd, h⟩ := gen_eval_end_to_end_utf8_partial dCtx_ok C07Decode.nmU rawT (by decide +kernel)
   have hdT : d = decT := by rw [decode_rawT] at hd; exact (Option.some.inj hd).symm
   subst hdT
-  have hrefs : refs (ofXDec C07Decode.nmU decT) = ["a", "a", "a"] := by decide +kernel
-  exact h exF 3 exF_wf exF_unique rfl exF_physLen "y" (by decide +kernel) (by decide +kernel)
-    (exF_noCapture_a _ (by intro n hn; rw [hrefs] at hn; simp at hn; exact .inl hn)) (by decide +kernel)
+  exact h exF 3 exF_wf exF_unique rfl exF_physLen "y" (by decide +kernel) (by decide +kernel) (by decide +kernel)
 
 example : (genEval dCtx exF "y" exT).map (fun g => showRes (resL strBytes g)) =
     some (showRes (evalS "d" (absL strBytes exF) (strBytes "y") (toSpec strBytes exT))) := by decide +kernel
@@ -1022,19 +1036,30 @@ example : InScope strBytes "o" noGap (absL strBytes exF) (.colCol "+" "a" "a") =
 
 /-! ### what the hypotheses exclude is real -/
 
-/-- **Finding (temp-name capture).** `(a + a) + Col("colcol-temp-0")` on a frame WITHOUT a column `colcol-temp-0`: the
-right operand is satisfied by the temporary of the left one — the code (and the mirror) returns `(a + a) + (a + a)`, no
-error; the spec, for which `colcol-temp-0` is an unknown column, answers with an error.  (`NoCapture` fails.)
-Confirmed on the real code: `Eval("y", Expr("+", Expr("+", a, b), types.ColumnName("colcol-temp-0")))` on
-`{a: 1 2 3, b: 10 20 30}` yields `y = 22 44 66` with `Err == nil`. -/
-def witCapture : Ex' := .ex2 "+" (.colCol "+" "a" "a") (.col "colcol-temp-0")
-
-example : showRes (resL strBytes (eval' dCtx exF "y" witCapture)) =
-    some [(strBytes "a", .int, [.int 12, .int 10, .int 11]),
-          (strBytes "b", .bool, [.bool true, .bool true, .bool false]),
-          (strBytes "y", .int, [.int 48, .int 40, .int 44])] := by decide +kernel
+/-- **The finding this file led to (temp-name capture), and its repair.**  `C07EvalGen.witCapture` is
+`(a + a) + Col("colcol-temp-0")`, evaluated on a frame WITHOUT a column `colcol-temp-0`.  Before the repair the right operand
+was satisfied by the temporary of the left one: the code returned `(a + a) + (a + a)` and no error, where the spec — for
+which `colcol-temp-0` is an unknown column — answers with an error (confirmed on the real code:
+`Eval("y", Expr("+", Expr("+", a, b), types.ColumnName("colcol-temp-0")))` on `{a: 1 2 3, b: 10 20 30}` gave
+`y = 22 44 66` with `Err == nil`).  The repair resolves every column reference against the frame `Eval` is called on before
+anything is executed (`missingCol`, `C07EvalGen.gen_missingcol_semantics`); with it the former hypothesis `NoCapture` of the
+theorems above is gone.  The OLD term of `Eval` (`C07EvalGen.mutNoCheck`: no check) accepts the expression … -/
+example : (EV.interpEval prims mutNoCheck Gen.tempColNameAst.name Gen.missingColAst.run dCtx exF "y" (toNode witCapture)).map
+      (fun g => showRes (resL strBytes g)) =
+    some (some [(strBytes "a", .int, [.int 12, .int 10, .int 11]),
+                (strBytes "b", .bool, [.bool true, .bool true, .bool false]),
+                (strBytes "y", .int, [.int 48, .int 40, .int 44])]) := by decide +kernel
+/-- … the spec rejects it … -/
 example : showRes (evalS "d" (absL strBytes exF) (strBytes "y") (toSpec strBytes witCapture)) = none := by
   decide +kernel
+/-- … and so does today's term, -/
+example : (genEval dCtx exF "y" witCapture).map (fun g => showRes (resL strBytes g)) = some none := by decide +kernel
+/-- as the theorem says: its hypotheses hold of this input too -/
+example : resL strBytes (eval' dCtx exF "y" witCapture) =
+    evalS "d" (absL strBytes exF) (strBytes "y") (toSpec strBytes witCapture) :=
+  eval'_eq_evalS_utf8_partial dCtx_ok exF 3 exF_wf exF_unique rfl exF_physLen "y" witCapture (by decide +kernel)
+    (by decide +kernel) (by decide +kernel)
+/-- (the capture is what `NoCapture` excludes inside `exec_den`; under `eval'` it cannot occur any more) -/
 example : ¬ NoCapture exF witCapture := by
   intro h
   exact h "colcol-temp-0" (by simp [witCapture, refs]) (by decide +kernel) ⟨"colcol", .inr (.inr rfl), 0, by decide +kernel⟩
